@@ -6,10 +6,12 @@ use crate::engine::{default_cfg, explore, replay_trace, Evidence};
 use crate::scn_pair::{Kinds, PairRoot, PairScn, Probe};
 use crate::scn_vault::{VaultRoot, VaultScn};
 
-pub const PFEES: [Fee3; 3] = [
+pub const PFEES: [Fee3; 4] = [
     Fee3::new(ONE18 / 1000, 2 * ONE18 / 1000, ONE18 / 1000),
     Fee3::new(ONE18 / 100, 0, ONE18 / 50),
     Fee3::new(0, ONE18 / 100, 0),
+    // no protocol fee but a burn fee: the burn ledger moves while the protocol ledgers do not
+    Fee3::new(0, ONE18 / 1000, ONE18 / 100),
 ];
 
 pub fn pair_scn(tier: &str, stable: Option<u64>) -> PairScn {
@@ -32,7 +34,7 @@ pub fn pair_scn(tier: &str, stable: Option<u64>) -> PairScn {
             }
         }
     }
-    PairScn { property: "C07".into(), stable_amp: stable, roots, fee_alphabet: vec![PFEES[1], PFEES[2]], probe: Probe::None, reduced: false }
+    PairScn { property: "C07".into(), stable_amp: stable, roots, fee_alphabet: vec![PFEES[1], PFEES[2], PFEES[3]], probe: Probe::None, reduced: false }
 }
 
 pub fn vault_scn(tier: &str) -> VaultScn {
@@ -47,7 +49,7 @@ pub fn vault_scn(tier: &str) -> VaultScn {
             }
         }
     }
-    VaultScn { property: "C07".into(), roots, fee_alphabet: vec![PFEES[1], PFEES[2]], probe_share: false }
+    VaultScn { property: "C07".into(), roots, fee_alphabet: vec![PFEES[1], PFEES[2], PFEES[3]], probe_share: false }
 }
 
 pub fn run(tier: &str, seed: u64) -> i32 {
